@@ -13,7 +13,9 @@ import (
 	"crypto/elliptic"
 	"crypto/rand"
 	"crypto/rsa"
+	"encoding/asn1"
 	"fmt"
+	"io"
 	"math/big"
 	"strings"
 
@@ -75,6 +77,12 @@ func genNew(g *hx.Gen, r *hx.Rand) {
 	case "other":
 		form = hx.Pick(r, []string{"string", "rsa-value", "nil", "ed-pub-ptr", "dsa-value"})
 		fields = "gk=other"
+	}
+	if op == "newsigner" && form == "ptr" && kind != "ecdsa224" && kind != "other" && (r.Chance(1, 3) || (kind == "dsa" && r.Bool())) {
+		// an opaque crypto.Signer (only Public() and Sign()): every key type, DSA included, takes the
+		// wrappedSigner path with its ASN.1 → SSH re-encoding
+		form = "opaque"
+		fields += " opaque=1"
 	}
 	g.Stat(op + "." + kind + "." + form)
 	if op == "newpub" {
@@ -220,8 +228,39 @@ func execNewPub(o hx.Op) string {
 
 func pubOfSigner(k *wire.Key) *wire.Pub { return k.Pub() }
 
+// opaqueSigner hides the concrete key type: a crypto.Signer as a hardware module would provide it.
+type opaqueSigner struct {
+	pub  crypto.PublicKey
+	sign func(rand io.Reader, digest []byte, opts crypto.SignerOpts) ([]byte, error)
+}
+
+func (s opaqueSigner) Public() crypto.PublicKey { return s.pub }
+func (s opaqueSigner) Sign(rand io.Reader, digest []byte, opts crypto.SignerOpts) ([]byte, error) {
+	return s.sign(rand, digest, opts)
+}
+
+func makeOpaque(v any) any {
+	switch k := v.(type) {
+	case *dsa.PrivateKey:
+		return opaqueSigner{&k.PublicKey, func(rnd io.Reader, digest []byte, _ crypto.SignerOpts) ([]byte, error) {
+			r, s, err := dsa.Sign(rnd, k, digest)
+			if err != nil {
+				return nil, err
+			}
+			return asn1.Marshal(struct{ R, S *big.Int }{r, s})
+		}}
+	case crypto.Signer:
+		return opaqueSigner{k.Public(), k.Sign}
+	}
+	return v
+}
+
 func execNewSigner(o hx.Op) string {
 	v := goValue(o, true)
+	if o.Str("form") == "opaque" {
+		o.KV["form"] = "ptr"
+		v = makeOpaque(goValue(o, true))
+	}
 	var s ssh.Signer
 	var err error
 	// crypto.Signer values alternate between the two constructors
